@@ -6,6 +6,7 @@ import Driver.Proto
 import Driver.C17
 import Driver.Utils
 import Driver.C14
+import Driver.C14Escape
 import Driver.C11
 import Driver.Conn
 import Driver.C18
@@ -15,12 +16,13 @@ import Driver.C04
 import Driver.H2Wire
 import Driver.H2Deliver
 import Driver.C04H1
+import Driver.C13
 /-! `hcdriver`: one JSON object per input line (`{"cmd": …, …}`), one JSON object per output line
 (`{"ok": result}` or `{"error": msg}`).  Pure: every answer is computed by the model definitions the
 theorems in `HC/Props` are about. -/
 open Lean Driver
 
 def allHandlers : List (String × Handler) :=
-  Driver.C04.handlers ++ Driver.H2Wire.handlers ++ Driver.H2Deliver.handlers ++ Driver.C04H1.handlers ++ Driver.Shell.handlers ++ Driver.C20.handlers ++ Driver.C19.handlers ++ Driver.Streams.handlers ++ Driver.Proto.handlers ++ Driver.C17.handlers ++ Driver.Utils.handlers ++ Driver.C14.handlers ++ Driver.C11.handlers ++ Driver.Conn.handlers ++ Driver.C18.handlers ++ Driver.H2Send.handlers
+  Driver.C04.handlers ++ Driver.H2Wire.handlers ++ Driver.H2Deliver.handlers ++ Driver.C04H1.handlers ++ Driver.C13.handlers ++ Driver.Shell.handlers ++ Driver.C20.handlers ++ Driver.C19.handlers ++ Driver.Streams.handlers ++ Driver.Proto.handlers ++ Driver.C17.handlers ++ Driver.Utils.handlers ++ Driver.C14.handlers ++ Driver.C14Escape.handlers ++ Driver.C11.handlers ++ Driver.Conn.handlers ++ Driver.C18.handlers ++ Driver.H2Send.handlers
 
 def main : IO Unit := Driver.runMain allHandlers
